@@ -97,10 +97,10 @@ REGISTRY = {
     "C15": {
         "level": "proof",
         "modules": ["SkaModel.Props.C15"],
-        "gen": [],
+        "gen": ["C15"],
         "cli": [c15_cli],
         "cell_search": c15_cell_search,
-        "rule": "complete enumeration of the regenerated tables (every cell is a distinct case); non-trivial = all",
+        "rule": "complete enumeration of the regenerated tables (every cell is a distinct case); the consumers of the tables in-process: one split k-mer seen several times with different middle bases in every order, multiplicity and strand, ordinary and self-complementary arms (IUPAC update and the W/S/N palindrome update) vs model and window specification; non-trivial = all",
         "trusted_base": COMMON_TRUST + ["`skah tables` (tabulates the running code into Generated/Tables.lean on every run)"],
         "assumptions": ["base_to_prob is only applied to stored upper-case symbols (lower-case weights unconstrained)"],
     },
@@ -123,12 +123,12 @@ REGISTRY = {
         "trusted_base": COMMON_TRUST, "assumptions": [EXTERNAL, "RepeatFree is the executable predicate: every canonical arm key occurs at one ancestor coordinate only over all samples and is not its own reverse complement"],
     },
     "C04": {
-        "level": "proof", "modules": ["SkaModel.Props.C04", "SkaModel.Props.C04Writer", "SkaModel.Props.C04Map", "SkaModel.Props.C04Final"], "gen": ["C04"],
+        "level": "proof", "modules": ["SkaModel.Props.C04", "SkaModel.Props.C04Writer", "SkaModel.Props.C04Map", "SkaModel.Props.C04Final"], "gen": ["C04"], "cli": [cli.make_map_cli("C04", 30, 400)],
         "rule": "references of 1-5 contigs (lengths 1, h, k-1, k, k+1, .., N runs, planted repeats on both strands, lower/mixed case) x samples derived by SNPs, indels, block deletions of every length 0..2k+2, rearranged/reverse-complemented/missing contigs, or tables with ambiguity codes; all four mask combinations; plus AlnWriter driven call by call with every gap length; non-trivial = distinct case lines with at least one mapped k-mer",
         "trusted_base": COMMON_TRUST, "assumptions": [EXTERNAL],
     },
     "C05": {
-        "level": "proof", "modules": ["SkaModel.Props.C05", "SkaModel.Props.C05Map"], "gen": ["C05"],
+        "level": "proof", "modules": ["SkaModel.Props.C05", "SkaModel.Props.C05Map"], "gen": ["C05"], "cli": [cli.make_map_cli("C05", 30, 400)],
         "rule": "inputs of C04; VCF text parsed (CHROM, POS, REF, ALT, GT) and genotypes decoded through REF/ALT, compared with the alignment-derived specification; non-trivial = distinct case lines with at least one record",
         "trusted_base": COMMON_TRUST, "assumptions": [EXTERNAL, "noodles-vcf text rendering is trusted"],
     },
@@ -153,7 +153,7 @@ REGISTRY = {
         "trusted_base": COMMON_TRUST, "assumptions": [EXTERNAL],
     },
     "C09": {
-        "level": "proof", "modules": ["SkaModel.Props.C09"], "gen": [], "cli": [cli.c09_cli],
+        "level": "proof", "modules": ["SkaModel.Props.C09"], "gen": [], "cli": [cli.c09_cli, cli.make_map_cli("C09", 24, 200), cli.make_hist_cli("C09", 12, 150, gen_prop="C10")],
         "rule": "random tables for all 30 k x both widths (0-200 rows, 1-5 samples, all stored symbols; k>=33 families whose k-mers all fit in 64 bits; thorough: thousands of k-mers over several compression frames): saved by the real code, raw CBOR decoded + re-encoded by the model byte for byte; CLI merge in both orders and map/weed/nk/distance/align on 64-bit-fitting k>=33 files; non-trivial = tables with at least one k-mer",
         "trusted_base": COMMON_TRUST, "assumptions": [EXTERNAL, "Snappy compression (write side) and serde derive are exercised, not modelled"],
     },
